@@ -423,8 +423,7 @@ func (h *Host) GetSpec(ctx context.Context, src *crew.SpecSource) (core.Specter,
 	default:
 		err = yaml.Unmarshal(specSrc, &spec)
 	}
-
-	if err = yaml.Unmarshal(specSrc, &spec); err != nil {
+	if err != nil {
 		return nil, err
 	}
 	if err = spec.Compile(ctx, h.interpreters, true); err != nil {
